@@ -579,7 +579,7 @@ func forgeHighLimbsFake(d *emuCurveDesc, P wpt, s *big.Int, rng *rand.Rand) lie 
 
 // callEmuHint calls a registered emulated-convention hint on non-native inputs.
 func callEmuHint(d *emuCurveDesc, hint string, nativeOut bool, nout int, vals ...*big.Int) []*big.Int {
-	nl := d.capBit / 64
+	nl := d.nbLimbs
 	in := []*big.Int{bi(64), bi(int64(nl))}
 	in = append(in, limbsOf(d.c.R, nl)...)
 	in = append(in, bi(int64(len(vals))))
